@@ -32,6 +32,7 @@ var (
 	errMismatchedChecksumTypes  = errors.New("peer returned different checksum types between fragments")
 	errMismatchedChecksums      = errors.New("different checksums between peer and local")
 	errChunkExceedsFragmentSize = errors.New("peer chunk size exceeds remaining data in fragment")
+	errNoChunksInFragment       = errors.New("peer fragment contains no chunks")
 	errAlreadyReadingArgument   = errors.New("already reading argument")
 	errNotReadingArgument       = errors.New("not reading argument")
 	errMoreDataInArgument       = errors.New("closed argument reader when there is more data available to read")
@@ -300,6 +301,12 @@ func (r *fragmentingReader) recvAndParseNextFragment(initial bool) error {
 	localChecksum := r.checksum.Sum()
 	if bytes.Compare(r.curFragment.checksum, localChecksum) != 0 {
 		r.err = errMismatchedChecksums
+		return r.err
+	}
+
+	// A well-formed fragment carries at least one chunk.
+	if len(r.remainingChunks) == 0 {
+		r.err = errNoChunksInFragment
 		return r.err
 	}
 
